@@ -15,6 +15,31 @@ fn main() {
         }
         return;
     }
+    if args.first().map(|s| s == "--gen-seed-corpus").unwrap_or(false) {
+        // writes <root>/corpus/fuzz-seed/<target>/NNN (deterministic; committed to the repository)
+        let root = PathBuf::from(std::env::var("VERIF_ROOT").unwrap_or_else(|_| "/verif".to_string()));
+        pv::fuzzing::write_seed_corpus(&root);
+        return;
+    }
+    if args.first().map(|s| s == "--fuzz-input").unwrap_or(false) {
+        // pv --fuzz-input <target> <file>...: run the deterministic oracle of a fuzz target on raw input files
+        let target = args.get(1).cloned().unwrap_or_default();
+        let mut bad = 0;
+        for f in &args[2..] {
+            let bytes = std::fs::read(f).unwrap_or_default();
+            let t0 = std::time::Instant::now();
+            eprintln!("{f} ...");
+            let input = pv::fuzzrun::FuzzInput { target: target.clone(), hex: pv::fuzzrun::to_hex(&bytes), text: String::new() };
+            match pv::fuzzrun::oracle(&input, &mut pv::engine::Stats::scratch()) {
+                Ok(()) => eprintln!("{f}: ok ({:?})", t0.elapsed()),
+                Err(m) => {
+                    bad += 1;
+                    println!("{f}: ORACLE {m}");
+                },
+            }
+        }
+        std::process::exit(if bad > 0 { 1 } else { 0 });
+    }
     if args.len() < 2 {
         usage();
     }
